@@ -56,6 +56,12 @@ def rand_wtree(rng, depth, shape=None, base=0):
         pshape = segtree.full_shape_of(parent)
         if not pshape:
             return parent
+        if parent['kind'] != 'subset' and not parent.get('fmt') and rng.random() < 0.4:
+            # raw-basis definition, the way nitf.py cuts the padding off a block
+            rshape = segtree.raw_shape_of(parent)
+            if rshape and all(n > 0 for n in rshape):
+                d = [segtree.rand_norm_slice(rng, n, steps=(1, 1, 1, -1, 2)) for n in rshape]
+                return {'kind': 'subset', 'parent': parent, 'def': d, 'squeeze': rng.random() < 0.6, 'basis': 'raw'}
         d = [segtree.rand_norm_slice(rng, n, steps=(1, 1, 1, -1, 2)) for n in pshape]
         return {'kind': 'subset', 'parent': parent, 'def': d, 'squeeze': rng.random() < 0.7, 'basis': 'formatted'}
     if r < 0.55:
@@ -64,7 +70,7 @@ def rand_wtree(rng, depth, shape=None, base=0):
         if not pshape:
             return parent
         rev, trans = segtree.rand_orient(rng, len(pshape))
-        return {'kind': 'reorient', 'parent': parent, 'rev': rev, 'trans': trans}
+        return segtree.maybe_complex(rng, {'kind': 'reorient', 'parent': parent, 'rev': rev, 'trans': trans})
     if r < 0.8:
         # blocks: tiling (possibly padded children are modelled by subset children over larger leaves)
         ndim = rng.choice([1, 2, 2])
@@ -85,10 +91,14 @@ def rand_wtree(rng, depth, shape=None, base=0):
             else:
                 ch = rand_wtree(rng, depth - 1, shape=cshape)
             children.append(ch)
-            arrangement.append([[a, b, 1] for a, b in c])
+            if rng.random() < 0.12:
+                # block definition running backwards (served since the repair F1 of _find_slice_overlap)
+                arrangement.append([[b - 1, (a - 1 if a > 0 else None), -1] for a, b in c])
+            else:
+                arrangement.append([[a, b, 1] for a, b in c])
         spec = {'kind': 'blocks', 'shape': shape_, 'children': children, 'arrangement': arrangement, 'fill': -7}
         spec['rev'], spec['trans'] = segtree.rand_orient(rng, ndim, 0.4, 0.3)
-        return spec
+        return segtree.maybe_complex(rng, spec)
     ndim_c = rng.choice([1, 2])
     cshape = segtree.rand_shape(rng, ndim_c, 1, 6)
     nb = rng.randint(2, 3)
@@ -102,7 +112,7 @@ def rand_wtree(rng, depth, shape=None, base=0):
         if cand:
             rev = sorted(rng.sample(cand, rng.randint(1, len(cand))))
     spec['rev'], spec['trans'] = rev, None
-    return spec
+    return segtree.maybe_complex(rng, spec)
 
 
 def axis_classes(rng, n, allow_stride=True):
@@ -164,8 +174,11 @@ def run_history(spec, chunks, modes, data, tmpdir, observe=True):
 def make_data(spec, rng):
     shape = tuple(segtree.full_shape_of(spec))
     n = int(numpy.prod(shape)) if shape else 1
-    is_complex = any(l.get('fmt') for l in _leaves(spec) if l.get('fmt'))
+    is_complex = bool(segmodel._fmts(spec))
     vals = numpy.arange(1, n + 1).reshape(shape)
+    if segtree.has_polar(spec):
+        # magnitude and phase that the uint16 storage holds exactly: m * exp(2 pi i t / 65536), m and t integers
+        return (vals * numpy.exp(2j * numpy.pi * (vals + 1000) / 65536.0)).astype('complex64')
     if is_complex:
         return (vals + 1j * (vals + 1000)).astype('complex64')
     return vals.astype('int32')
@@ -214,7 +227,7 @@ def check_case(spec, chunks, modes, tmpdir, fails, stats, drv_jobs):
     stats['histories'] = stats.get('histories', 0) + 1
     # independent numpy expectation for identity formats: leaf sample <- data pixel that reads from it
     expected = None
-    if not any(l.get('fmt') for l in _leaves(spec)):
+    if not segmodel._fmts(spec):
         rb = segtree.Builder('r', tmpdir)
         try:
             _, orc = rb.build(spec)
@@ -263,7 +276,7 @@ def check_case(spec, chunks, modes, tmpdir, fails, stats, drv_jobs):
         try:
             rseg, _ = rb.build(spec)
             got = rseg.read(None, squeeze=False)
-            if got.shape != data.shape or not numpy.array_equal(got, data):
+            if not segtree.arrays_equal(got, data, segtree.has_polar(spec)):
                 fails.append(dict(case, msg='a reader over the written storage does not return the written image'))
                 return
         finally:
@@ -272,7 +285,9 @@ def check_case(spec, chunks, modes, tmpdir, fails, stats, drv_jobs):
         total = sum(a.size for a in res['stores'])
         if total <= 400:
             body = ';'.join(','.join(f'{p}:{v}' for p, v in ch) if ch else '-' for ch in res['hist'])
-            flat = numpy.concatenate([a.reshape(-1) for a in res['stores']])
+            # unwritten samples (still the sentinel of their dtype) are shown as -1, like the model's empty cells
+            flat = numpy.concatenate([numpy.where(a.reshape(-1) == segtree.sentinel(a.dtype), -1, a.reshape(-1).astype('int64'))
+                                      for a in res['stores']])
             drv_jobs.append((case, f'scatter hist {total} {body}', flat, res['flags'][-1], sum(len(c) for c in res['hist'])))
     finally:
         try:
@@ -306,6 +321,42 @@ def check_case(spec, chunks, modes, tmpdir, fails, stats, drv_jobs):
         b.cleanup()
     except Exception:
         pass
+    # addressing is honoured also when the chunk has the full shape: (a) the whole image handed over through a reversed subscript is
+    # stored reversed (same stores as the plain whole-image write of the same pixels), (b) a full-size chunk at a non-zero start is refused
+    axes = [k for k, n in enumerate(shape) if n > 1]
+    if axes and not segmodel._fmts(spec):
+        ax = axes[sum(shape) % len(axes)]
+        sl = tuple(slice(None, None, -1) if k == ax else slice(0, n, 1) for k, n in enumerate(shape))
+        b = None
+        try:
+            b = segtree.Builder('w', tmpdir)
+            seg, _ = b.build(spec)
+            stats['full_shape_addressing'] = stats.get('full_shape_addressing', 0) + 1
+            try:
+                seg.write(numpy.ascontiguousarray(data[sl]), subscript=sl)
+                got = leaf_stores(b)
+                if any(not numpy.array_equal(x, y) for x, y in zip(whole, got)):
+                    fails.append(dict(case, msg=f'the whole image written through the reversed subscript (axis {ax}, step -1) is not stored where a plain whole-image write stores it: the subscript of a full-shape chunk is ignored'))
+            except Exception as e:
+                fails.append(dict(case, msg=f'whole image through a reversed subscript (axis {ax}) refused: {type(e).__name__}: {e}', exc=str(e)))
+            seg.close()
+            b.cleanup()
+            b = segtree.Builder('w', tmpdir)
+            seg, _ = b.build(spec)
+            before = leaf_stores(b)
+            try:
+                seg.write(data, start_indices=tuple(1 if k == ax else 0 for k in range(len(shape))))
+                fails.append(dict(case, msg=f'a full-size chunk at start index 1 along axis {ax} was accepted (it cannot fit)'))
+            except Exception:
+                after = leaf_stores(b)
+                if any(not numpy.array_equal(x, y) for x, y in zip(before, after)):
+                    fails.append(dict(case, msg='a refused full-size chunk was partly stored'))
+            seg.close()
+        except Exception:
+            pass
+        finally:
+            if b is not None:
+                b.cleanup()
 
 
 def classify(f):
@@ -353,7 +404,6 @@ def run(tier):
                 continue
             if not shape or any(n == 0 for n in shape):
                 continue
-            is_cplx = any(l.get('fmt') for l in _leaves(spec))
             chunks = rand_partition(rng, shape, allow_stride=True)
             modes = []
             for ch in chunks:
@@ -373,6 +423,20 @@ def run(tier):
         seg_dis, seg_stats = segmodel.check_writes(seg_plan, ans)
         disagreements += seg_dis
         chk.coverage['segment_model'] = seg_stats
+        # search: the numpy oracles on the trees where model and implementation part ways (random partitions of the same tree)
+        if seg_dis:
+            tmp2 = tempfile.mkdtemp(prefix='c07s_', dir=os.environ.get('VERIF_SCRATCH', '/var/tmp'))
+            try:
+                for dsg in seg_dis[:8]:
+                    try:
+                        shape = segtree.full_shape_of(dsg['tree'])
+                    except Exception:
+                        continue
+                    for _ in range(3):
+                        chunks = rand_partition(rng, shape, allow_stride=True)
+                        check_case(dsg['tree'], chunks, ['sub'] * len(chunks), tmp2, fails, stats, [])
+            finally:
+                shutil.rmtree(tmp2, ignore_errors=True)
         for (case, line, flat, flag, nassign), i in zip(drv_jobs, idx):
             store, _, tail = ans[i].partition(' | ')
             cells = store.split(',') if store else []
@@ -388,7 +452,7 @@ def run(tier):
     chk.coverage.update({
         'evaluations': stats.get('writes', 0) + len(drv_jobs) + chk.coverage.get('segment_model', {}).get('writes', 0),
         'distinct_nontrivial': len(seen),
-        'rule': 'random writable segment trees (array/memmap leaves, identity and complex IQ/QI formats, subset incl. padded blocks, '
+        'rule': 'random writable segment trees (array/memmap leaves, identity and complex IQ/QI/MP/PM formats, subset (formatted / raw basis) incl. padded blocks, '
                 'reorientation, band and block aggregates) x random partitions of the formatted index set into rectangular chunks '
                 '(contiguous intervals and strided lattices per axis) x random chunk order x addressing mode (start_indices / subscript); '
                 'distinct = distinct (tree class, chunk count, strided?) triples; each history has >= 1 write and is compared with a whole-image write, '
@@ -403,8 +467,10 @@ def run(tier):
         'translator py2lean for the shared slice kernels (checked by C01\'s three-way differential)',
         'the map from a formatted chunk to raw positions inside the segment classes: theorem write_routes (Props/C07Seg.lean) is about '
         'Spec.Segment, a hand-written mirror of data_segment.py / format_function.py, tied to the code by the write correspondence of this run '
-        '(array / memmap leaves, reverse + transpose, ReorientationSegment, subsets with and without squeezed axes, band aggregates, tilings); '
-        'writes through a complex format function are tied by the numpy provenance oracle only',
+        '(array / memmap leaves, reverse + transpose, ReorientationSegment, subsets with and without squeezed axes in either basis, band '
+        'aggregates, tilings, ComplexFormatFunction IQ/QI/MP/PM with the band axis collapsed or kept: every stored sample is identified as '
+        'real / imaginary / magnitude / phase part of one chunk element); the store theorems (write_then_full, chunks_commute) are stated for '
+        'trees without a complex format, the routing theorem write_routesG for all writable trees',
         'numpy.memmap flushing and the OS page cache are outside the model',
     ]
     # SubsetSegment._from_parent_subscript (subset coordinates of a parent subscript, used when writing through subsets of subsets) is
